@@ -594,6 +594,45 @@ def renak_session(seed):
     return s.ops
 
 
+def burst_session(seed):
+    """C10 / C01 / C16: a whole channel life in one burst - open, data, close: 254 ... 256 reliable bunches of one channel unacknowledged at once (the
+    proviso of C01 allows 256) - with the sender's update running while everything is still in flight, one of the datagrams lost, then a fault-free drain:
+    everything must arrive once and in order, the close last, and both sides must release the channel only then"""
+    rng = random.Random(seed)
+    s = Session(rng)
+    s.op("reset")
+    s.op("conn 1")
+    s.op("conn 2")
+    a_out, b_out = seq_choice(rng), seq_choice(rng)
+    s.op("seqinit 1 %d %d" % (b_out, a_out))
+    s.op("seqinit 2 %d %d" % (a_out, b_out))
+    s.note("peers 1 2")
+    ch = rng.choice([1, 3, 64, 8192])
+    n = rng.choice([200, 254, 255, 256, 256, 256])
+    s.op("send 1 %d 9 0 1 %d %d" % (ch, rng.choice([0, 8]), s.next_pseed()))
+    for _ in range(n - 2):
+        s.op("send 1 %d 8 0 0 %d %d" % (ch, rng.choice([0, 0, 8, 24]), s.next_pseed()))
+    s.op("send 1 %d 10 %d 0 %d %d" % (ch, rng.randint(0, 14), rng.choice([0, 8]), s.next_pseed()))
+    if rng.random() < 0.8:
+        s.op("update 1")
+    s.op("flush 1")
+    # the burst is two or three datagrams: the first or the second one is lost
+    if rng.random() < 0.5:
+        s.op("dln 2 1")
+    s.op("drop 1")
+    s.op("dla 2 1")
+    if rng.random() < 0.5:
+        s.op("update 2")
+    s.op("update 1")
+    s.note("drain")
+    drain(s, 1, 2, rounds=8, update=True)
+    s.note("drained")
+    s.op("nodes")
+    s.op("chans 1")
+    s.op("chans 2")
+    return s.ops
+
+
 def many_channels_session(seed):
     """C16 / C10 / C14: many channels open at the same time - the open-channel index has to grow (32, 64, 128 entries) - opened from both sides, some
     closed and released again, then everything torn down: every block must come back, the index stays sorted, traffic keeps flowing"""
